@@ -274,3 +274,9 @@ mod tests {
         assert_eq!(handler.as_raw_fd(), handler.epoll.as_raw_fd());
     }
 }
+
+// Verification harnesses (Kani); the sources live outside this repository.
+#[cfg(feature = "verif")]
+mod verif {
+    include!(concat!(env!("VHOST_VERIF_DIR"), "/harness/vub_event_loop.rs"));
+}
